@@ -44,6 +44,20 @@ def run(tier, seed):
                 ck.note("thread exits in a schedule scenario (judged by C14): %r" % (r["exits"][:2],))
         ck.cov["schedules_%s" % name] = n
         ck.cov["schedule_outcomes_%s" % name] = len(runs)
+    # stop() at the instant a persistent peer's reconnect is due: line-level schedules of _reconnect_peers / _connect_to_peer / stop;
+    # oracle from the statement ("dials no peers while stopping"): no connect() after stop() has marked the node as stopping
+    from .. import explore
+    nrd = 0
+    for res, pol in explore.explore(schedscen.c18_stop_while_reconnect_due, 1, max_runs=6000 if tier == "thorough" else 1500):
+        nrd += 1
+        sched_ = [x[1] for x in pol.records]
+        for sig in res["oracle"]:
+            ck.violation(sig + ":schedule", "scenario c18_stop_while_reconnect_due under schedule %r: connect() after stop() had set the stopping flag" % (sched_[:60],),
+                         {"sched_scenario": "c18_stop_while_reconnect_due", "schedule": sched_, "oracle": True})
+        if not res["marker_seen"]:
+            raise RuntimeError("c18_stop_while_reconnect_due: the stopping flag was never seen to be set (scenario no longer binds)")
+    total += nrd
+    ck.cov["schedules_c18_stop_while_reconnect_due"] = nrd
     ck.cov["schedules_explored"] = total
     ck.cov["schedule_preemption_bound"] = 3 if tier == "thorough" else 2
     return ck.finish()
@@ -55,6 +69,12 @@ def replay(path, seed):
     if "sched_scenario" in rp:
         from .. import schedscen, explore, nodetrace as nt
         r = getattr(schedscen, rp["sched_scenario"])(explore.Decisions(rp["schedule"]))
+        if rp.get("oracle"):
+            print("replayed schedule: %s" % r["oracle"])
+            if any(o + ":schedule" == body["sig"] for o in r["oracle"]):
+                print("VIOLATION property=C18 replay=%s" % path)
+                return 1
+            return 0
         v = nt.mon_batch(r["params"], [r["steps"]], "c18_sched_replay")[0].get("C18", [])
         print("replayed schedule: %s" % v)
         if v:
